@@ -892,3 +892,94 @@ Proof.
   apply existsb_exists in E as [py [Hin Hpy]]. rewrite forallb_forall in F. specialize (F py Hin).
   apply andb_prop in Hpy as [_ H1]. apply andb_prop in F as [H0 _]. apply Z.eqb_eq in H1. apply Z.eqb_eq in H0. lia.
 Qed.
+
+(* ------------------------------------------------------------------------------------------ *)
+(* Multilabel / top-k multilabel accuracy: lifting the per-sample criteria to the batch         *)
+(* ------------------------------------------------------------------------------------------ *)
+Lemma cnt_or_excl {X} (A B : X -> bool) l : (forall x, A x && B x = false) -> cnt A l + cnt B l = cnt (fun x => A x || B x) l.
+Proof.
+  intros H. induction l as [|x l IH]; [reflexivity|]. rewrite !cnt_cons, <- IH. specialize (H x).
+  destruct (A x), (B x); cbn [orb b2z] in *; try discriminate; lia.
+Qed.
+Lemma cnt_ext_F {X} (P : X -> Prop) (A B : X -> bool) l : Forall P l -> (forall x, P x -> A x = B x) -> cnt A l = cnt B l.
+Proof. intros HF H. apply cnt_ext_in. intros x Hx. apply H. rewrite Forall_forall in HF. apply HF. exact Hx. Qed.
+Lemma sumZ_ext_F {X} (P : X -> Prop) (f g : X -> Z) l : Forall P l -> (forall x, P x -> f x = g x) -> sumZ (map f l) = sumZ (map g l).
+Proof. intros HF H. induction HF as [|x l Hx _ IH]; [reflexivity|]. cbn [map]. rewrite !sumZ_cons, IH, (H x Hx). reflexivity. Qed.
+Lemma sumZ_le {X} (f g : X -> Z) l : (forall x, 0 <= f x <= g x) -> 0 <= sumZ (map f l) <= sumZ (map g l).
+Proof. intros H. induction l as [|x l IH]; [cbn; lia|]. cbn [map]. rewrite !sumZ_cons. specialize (H x). lia. Qed.
+
+Theorem ml_update_spec cr rows : Forall ok01 rows ->
+  acc_gamma_avg Micro (Arr [zsc (fst (ml_update cr rows)); zsc (snd (ml_update cr rows))])
+  = ml_textbook_rows cr (map (map to_bits) rows).
+Proof.
+  intros HF. unfold acc_gamma_avg. cbn [fsc nget narr nth nsc zsc]. 
+  assert (Hrow : forall A (cr' : crit), cr' <> Hamming ->
+            (forall r, ok01 r -> A r = ml_sample_ok cr' (map to_bits r)) ->
+            RS (qdivx (z2q (cnt A rows)) (z2q (lenZ rows))) = ml_textbook_rows cr' (map (map to_bits) rows)).
+  { intros A cr' Hne HA. assert (E : ml_textbook_rows cr' (map (map to_bits) rows)
+        = RS (ratioN (cnt (ml_sample_ok cr') (map (map to_bits) rows)) (lenZ (map (map to_bits) rows)))) by (destruct cr'; [reflexivity|congruence|reflexivity..]).
+    rewrite E, cnt_map, lenZ_map, <- (cnt_ext_F ok01 A _ rows HF HA). f_equal. apply qdivx_z.
+    intros H0. pose proof (cnt_le_len A rows). pose proof (cnt_nonneg A rows). lia. }
+  destruct cr; cbn [ml_update fst snd].
+  - rewrite sumZ_b2z. apply Hrow; [discriminate|]. intros r Hr. apply (ml_row_criteria r Hr).
+  - cbn [ml_textbook_rows]. rewrite !map_map. f_equal.
+    rewrite (sumZ_ext_F ok01 _ (fun r => cnt (fun pt : bool * bool => Bool.eqb (fst pt) (snd pt)) (map to_bits r)) rows HF)
+      by (intros r Hr; apply (ml_row_criteria r Hr)).
+    rewrite (map_ext (fun r => lenZ (map to_bits r)) lenZ) by (intros r; apply lenZ_map).
+    apply qdivx_z. intros H0.
+    pose proof (sumZ_le (fun r => cnt (fun pt : bool * bool => Bool.eqb (fst pt) (snd pt)) (map to_bits r)) lenZ rows) as Hle.
+    assert (Hpt : forall r : list (Z * Z), 0 <= cnt (fun pt : bool * bool => Bool.eqb (fst pt) (snd pt)) (map to_bits r) <= lenZ r).
+    { intros r. split; [apply cnt_nonneg|]. rewrite <- (lenZ_map to_bits r). apply cnt_le_len. }
+    specialize (Hle Hpt). lia.
+  - rewrite !sumZ_b2z, (cnt_or_excl _ _ rows ml_overlap_exclusive). apply Hrow; [discriminate|]. intros r Hr. apply (ml_row_criteria r Hr).
+  - rewrite sumZ_b2z. apply Hrow; [discriminate|]. intros r Hr. apply (ml_row_criteria r Hr).
+  - rewrite sumZ_b2z. apply Hrow; [discriminate|]. intros r Hr. apply (ml_row_criteria r Hr).
+Qed.
+
+Lemma combine_map2 {A B C D} (f : A -> C) (g : B -> D) a b : combine (map f a) (map g b) = map (fun p => (f (fst p), g (snd p))) (combine a b).
+Proof. revert b. induction a as [|x a IH]; intros [|y b]; try reflexivity. cbn [map combine fst snd]. rewrite IH. reflexivity. Qed.
+Lemma combine_map_l {A B C} (f : A -> C) a (b : list B) : combine (map f a) b = map (fun p => (f (fst p), snd p)) (combine a b).
+Proof. revert b. induction a as [|x a IH]; intros [|y b]; try reflexivity. cbn [map combine fst snd]. rewrite IH. reflexivity. Qed.
+Lemma b2z_eq1 x : (b2z x =? 1) = x. Proof. destruct x; reflexivity. Qed.
+Lemma ml_bits_rows t b : ml_bits t b = map (map to_bits) (ml_rows t b).
+Proof.
+  unfold ml_bits, ml_rows. rewrite map_map. apply map_ext. intros [s y]. cbn [fst snd]. rewrite combine_map2, combine_map_l, map_map.
+  apply map_ext. intros [p q]. unfold to_bits. cbn [fst snd]. rewrite thresh_spec, b2z_eq1, Z.eqb_sym. reflexivity.
+Qed.
+Lemma is01_cases z : is01 z = true -> z = 0 \/ z = 1.
+Proof. unfold is01. intros H. apply orb_prop in H as [H|H]; apply Z.eqb_eq in H; auto. Qed.
+Lemma ml_rows_ok01 t b : ml_shape_ok b = true -> Forall ok01 (ml_rows t b).
+Proof.
+  unfold ml_shape_ok. intros V. apply andb_prop in V as [_ V]. rewrite forallb_forall in V.
+  unfold ml_rows. apply Forall_forall. intros r Hr. apply in_map_iff in Hr as [[s y] [<- Hin]]. cbn [fst snd].
+  apply in_combine_r in Hin. specialize (V y Hin). rewrite forallb_forall in V.
+  intros [p q] Hpq. cbn [fst snd]. split.
+  - apply in_combine_l in Hpq. apply in_map_iff in Hpq as [z [<- _]]. rewrite thresh_spec. destruct (t <=? z); cbn; auto.
+  - apply in_combine_r in Hpq. apply is01_cases, V, Hpq.
+Qed.
+Theorem mlacc_algo_eq_spec c b : ml_shape_ok b = true -> fn_of mlacc_spec c b = mlacc_textbook c b.
+Proof.
+  intros V. unfold fn_of, mlacc_textbook. cbn [agamma abeta mlacc_spec]. unfold mlacc_beta. cbv zeta.
+  rewrite ml_bits_rows. apply ml_update_spec. apply ml_rows_ok01. exact V.
+Qed.
+
+Lemma tk_bits_rows b : tk_bits b = map (map to_bits) (tk_rows b).
+Proof.
+  unfold tk_bits, tk_rows. rewrite map_map. apply map_ext. intros [[s y] k]. cbn [fst snd]. rewrite tk_label_spec, combine_map2, combine_map_l, map_map.
+  apply map_ext. intros [p q]. unfold to_bits. cbn [fst snd]. rewrite b2z_eq1, Z.eqb_sym. reflexivity.
+Qed.
+Lemma tk_rows_ok01 c b : tk_valid c b = true -> Forall ok01 (tk_rows b).
+Proof.
+  unfold tk_valid. intros V. do 3 (apply andb_prop in V as [V _]). unfold ml_shape_ok in V. apply andb_prop in V as [_ V]. cbn [snd] in V.
+  rewrite forallb_forall in V. unfold tk_rows. apply Forall_forall. intros r Hr. apply in_map_iff in Hr as [[[s y] k] [<- Hin]]. cbn [fst snd].
+  apply in_combine_l, in_combine_r in Hin. specialize (V y Hin). rewrite forallb_forall in V.
+  intros [p q] Hpq. cbn [fst snd]. split.
+  - apply in_combine_l in Hpq. rewrite tk_label_spec in Hpq. apply in_map_iff in Hpq as [z [<- _]]. destruct (memZ z k); cbn; auto.
+  - apply in_combine_r in Hpq. apply is01_cases, V, Hpq.
+Qed.
+(* for EVERY admissible top-k selection *)
+Theorem tkacc_algo_eq_spec c b : tk_valid c b = true -> fn_of tkacc_spec c b = tkacc_textbook c b.
+Proof.
+  intros V. unfold fn_of, tkacc_textbook. cbn [agamma abeta tkacc_spec]. unfold tkacc_beta. cbv zeta.
+  rewrite tk_bits_rows. apply ml_update_spec. apply (tk_rows_ok01 c). exact V.
+Qed.
